@@ -74,6 +74,7 @@ func RandomSpec(r *sim.Rand) DocSpec {
 		sp.EOL = sim.Pick(r, []int{0, 1, 1, 2})
 	}
 	sp.SplitXRef = on(density / 2)
+	sp.ForwardPrev = len(sp.XRef) > 0 && sp.XRef[0] == 0 && on(density/2)
 	if on(density) {
 		sp.LenMode = 1 + r.Intn(2)
 		sp.LenInStm = r.Bool()
@@ -164,6 +165,7 @@ func (sp DocSpec) Features() []string {
 	add(anyStream && sp.WidePad > 0, "xrefstm=wide")
 	add(sp.Shuffle, "shuffle")
 	add(sp.Renumber, "renumber")
+	add(sp.ForwardPrev && len(sp.XRef) > 0 && sp.XRef[0] == 0 && sp.ObjStm == 0, "xref=forward-prev")
 	add(sp.Bulk > 0, "bulk")
 	add(sp.SplitXRef, "split-xref")
 	add(sp.LenMode == 1, "len=indirect-before")
@@ -438,6 +440,13 @@ func (sp DocSpec) Shrinks() []DocSpec {
 		return true
 	})
 	try(func(s *DocSpec) bool {
+		if !s.ForwardPrev {
+			return false
+		}
+		s.ForwardPrev = false
+		return true
+	})
+	try(func(s *DocSpec) bool {
 		if s.Bulk == 0 {
 			return false
 		}
@@ -680,6 +689,8 @@ func SpecWithFeatures(features []string) (DocSpec, bool) {
 			sp.Shuffle = true
 		case f == "renumber":
 			sp.Renumber = true
+		case f == "xref=forward-prev":
+			sp.ForwardPrev = true
 		case f == "bulk":
 			sp.Bulk = 300
 		case f == "split-xref":
@@ -864,6 +875,8 @@ func (sp DocSpec) Without(f string) DocSpec {
 		c.Shuffle = false
 	case f == "renumber":
 		c.Renumber = false
+	case f == "xref=forward-prev":
+		c.ForwardPrev = false
 	case f == "bulk":
 		c.Bulk = 0
 	case f == "split-xref":
@@ -961,7 +974,7 @@ func (sp DocSpec) PlainStorage() DocSpec {
 	c.XRef = make([]int, len(sp.XRef))
 	c.EOL, c.Tight, c.Loose, c.Comments, c.HexPct, c.NameEsc, c.DictBreak = 0, false, false, false, 0, false, false
 	c.ObjStm, c.ObjStmN, c.ObjStmZ, c.XRefZ, c.WidePad = 0, 0, false, 0, 0
-	c.Shuffle, c.Renumber, c.SplitXRef, c.Bulk = false, false, false, 0
+	c.Shuffle, c.Renumber, c.SplitXRef, c.Bulk, c.ForwardPrev = false, false, false, 0, false
 	c.LenMode, c.LenInStm, c.Filter, c.Predictor, c.Split = 0, false, 0, 0, 0
 	c.ContentsArr, c.ContentsRef = false, false
 	c.TreeDepth, c.InheritAt, c.InheritVary, c.ResIndirect, c.FontPartsIndirect, c.KidsRef = 1, 0, false, false, false, false
